@@ -493,6 +493,8 @@ def run(chk):
         return True, "", [wl[0].loc, wp[0].loc, cc[0].loc]
     chk.ob("C05.hooks:__PrivateCompleteSpan::complete", "the macro completion feeds lvl to with_lvl and panic_lvl to with_panic_lvl and completes once", hook_complete)
 
+    common.builder_rules(chk, P, "C05", lambda b: b.crate == "emit" and (b.key.startswith("emit::span::Span::<") or b.key.startswith("emit::span::SpanGuard::<")
+                                                                  or b.key.startswith("emit::timer::Timer::<") or b.key.startswith("emit::span::completion::Default::<")), 12)
     # the macro side of the same plumbing, read off the quote! templates of emit_macros (macro/runtime boundary)
     from . import quotes
     quotes.boundary_rule(chk, P, "C05", {"__private_complete_span", "__private_complete_span_ok", "__private_complete_span_err",
